@@ -269,8 +269,68 @@ def pairing_blocking(ctx, fi):
                 ok_blocks = same_slice and is_we and same_j and den_is_bw
                 why = (f"same slice {same_slice}, numerator sums weights*samples {is_we}, same block index {same_j}, "
                        f"divided by that block's weight {den_is_bw}")
-    ctx.ob("PAIR-4", "blocking_analysis: block j sums one slice of the weights and of the weighted samples and "
-           "divides by its own block weight", ok_blocks, why, fi)
+    # the same thing for all blocks at once:  X[:nBlocks*i].reshape(nBlocks, i).sum(axis=1)
+    vec = None
+    if bw_name is None:
+        def vec_blocks(t):
+            t = strip_wrappers(t)
+            mm_ = m_method(t, "astype")
+            if mm_ is not None:
+                t = strip_wrappers(mm_[0])
+            if not (t.op == "call" and t.args[0].op == "attr" and t.args[0].args[1] == "sum"):
+                return None
+            _, ps_, kw_ = call_parts(t)
+            ax = kw_.get("axis", ps_[0] if ps_ else None)
+            if ax is None or not is_const(strip_wrappers(ax), 1):
+                return None
+            r = strip_wrappers(t.args[0].args[0])
+            rs_ = m_method(r, "reshape")
+            if rs_ is None:
+                return None
+            dims = list(rs_[1])
+            if len(dims) == 1 and strip_wrappers(dims[0]).op == "tuple":
+                dims = list(strip_wrappers(dims[0]).args)
+            b_ = strip_wrappers(rs_[0])
+            if len(dims) != 2 or not (b_.op == "getitem" and b_.args[1].op == "slice" and
+                                      is_const(b_.args[1].args[0], None)):
+                return None
+            return strip_wrappers(b_.args[0]), b_.args[1].args[1], dims[0], dims[1]
+
+        cands = []
+        for e in ev.events:
+            if e.kind == "assign" and e.loops and hasattr(e.data[1], "op"):
+                vb = vec_blocks(e.data[1])
+                if vb is not None:
+                    cands.append((e, vb))
+        wv = [c_ for c_ in cands if c_[1][0] is strip_wrappers(w_cut)]
+        ev_ = []
+        for c_ in cands:
+            we = c_[1][0]
+            mw = m_arrcall(we, "multiply") or (list(m_binop(we, "*")) if m_binop(we, "*") else None)
+            if mw is not None and {strip_wrappers(mw[0]).uid, strip_wrappers(mw[1]).uid} == {strip_wrappers(w_cut).uid,
+                                                                                          strip_wrappers(e_cut).uid}:
+                ev_.append(c_)
+        if len(wv) == 1 and len(ev_) == 1:
+            (we_, (_, n_w, d0w, d1w)), (ee_, (_, n_e, d0e, d1e)) = wv[0], ev_[0]
+            same_split = n_w is n_e and d0w is d0e and d1w is d1e
+            # block means: the blocked weighted samples divided by the blocked weights
+            div_ok = False
+            for e in ev.events:
+                if e.kind == "assign" and e.loops and hasattr(e.data[1], "op"):
+                    d = m_binop(strip_wrappers(e.data[1]), "/")
+                    if d is not None and strip_wrappers(d[0]) is strip_wrappers(ee_.data[1]) and \
+                            strip_wrappers(d[1]) is strip_wrappers(we_.data[1]):
+                        div_ok = True
+            ok_blocks = same_split and div_ok
+            why = f"vectorised: same [:n].reshape(nBlocks, i) split for weights and weighted samples {same_split}; " \
+                  f"block means = blocked weighted samples / blocked weights {div_ok}"
+            vec = (n_w, d0w, d1w)
+    if bw_name is None and vec is None:
+        ctx.rep.note("blocking_analysis: neither the per-block loop nor the reshape(nBlocks, i).sum(axis=1) form of the block "
+                     "sums was found; the block pairing rules (PAIR-4) are not applicable to this shape of the code")
+    else:
+        ctx.ob("PAIR-4", "blocking_analysis: block j sums one slice of the weights and of the weighted samples and "
+               "divides by its own block weight", ok_blocks, why, fi)
     # slice is [j*i : (j+1)*i] of block size i, nBlocks = nSamples // i
     ok_geo = False
     if bw_name is not None:
@@ -317,9 +377,27 @@ def pairing_blocking(ctx, fi):
                     q = m_binop(strip_wrappers(e.data[1]), "//")
                     if q[1] is iv:
                         nb = e.data[1]
+            if nb is None:
+                # the block count may be handed on without a name of its own: read it off the block loop's range
+                jw = strip_wrappers(j_w)
+                if jw.op == "iter" and hasattr(jw.args[0], "op") and jw.args[0].op == "call":
+                    ra_ = call_parts(jw.args[0])[1]
+                    if len(ra_) == 1:
+                        q = m_binop(strip_wrappers(ra_[0]), "//")
+                        if q is not None and strip_wrappers(q[1]) is strip_wrappers(iv):
+                            nb = ra_[0]
             ok_geo = ok_geo and nb is not None
-    ctx.ob("PAIR-4", "blocking_analysis: blocks are consecutive slices [j*i, (j+1)*i) and nBlocks = nSamples // i",
-           ok_geo, "", fi)
+    if vec is not None:
+        n_w, d0, d1 = vec
+        # n == nBlocks * i with nBlocks = <length> // i
+        q = m_binop(strip_wrappers(d0), "//")
+        iv = strip_wrappers(d1)
+        pn = m_binop(strip_wrappers(n_w), "*")
+        ok_geo = q is not None and strip_wrappers(q[1]) is iv and pn is not None and \
+            {strip_wrappers(pn[0]).uid, strip_wrappers(pn[1]).uid} == {strip_wrappers(d0).uid, iv.uid}
+    if bw_name is not None or vec is not None:
+        ctx.ob("PAIR-4", "blocking_analysis: blocks are consecutive slices [j*i, (j+1)*i) and nBlocks = nSamples // i",
+               ok_geo, "", fi)
     # error = sqrt( sum(bw * (be - mean)^2) / (v1 - v2/v1) / (nBlocks - 1) )
     err = None
     for e in ev.events:
@@ -537,7 +615,7 @@ def outliers(ctx):
     elif len(main) == 1:
         _, pos, _ = call_parts(main[0])
         col = strip_wrappers(pos[1]) if len(pos) > 1 else None
-        if col is not None and col.op == "phi" and col.args[1].op == "const" and col.args[2].op == "const":
+        if col is not None and col.op in ("phi", "ifexp") and col.args[1].op == "const" and col.args[2].op == "const":
             sel = (show(col.args[0], maxdepth=4), col.args[1].args[0], col.args[2].args[0])
     ok_col = sel is not None and sel[1] == 2 and sel[2] == 1 and "ad_mode" in sel[0] and "2rdm" in sel[0]
     ctx.ob("PAIR-4", "driver.afqmc: outliers are judged on the observable column exactly when an observable is sampled",
